@@ -245,6 +245,10 @@ def probe(ctx):
         strs = np.array([''.join(nprng.choice(list('IXYZ'), size=n, p=[0.15, 0.15, 0.55, 0.15])) for _ in range(k)])
         idx = G.pauli_str_to_index(strs)
         batched_roundtrip(ctx, G, n, idx, strs)
+    # single-item conversions for larger n: index -> F2 -> index, index -> str -> index, F2 -> str -> F2
+    for _ in range(150 if ctx.quick() else 1500):
+        n = rng.randint(3, 14)
+        single_roundtrip(ctx, G, n, rng.randrange(4 ** n))
     # random larger n: product/commutation against dense matrices
     for _ in range(40 if ctx.quick() else 400):
         n = rng.randint(3, 6)
@@ -254,6 +258,25 @@ def probe(ctx):
             ctx.fail('matmul', f'(a@b).full_matrix != product for {bits(a.F2)},{bits(b.F2)}', dict(op='matmul', n=n, a=bits(a.F2), b=bits(b.F2)))
         else:
             ctx.probe_ok(('mmr', bits(a.F2), bits(b.F2)))
+
+
+def single_roundtrip(ctx, G, n, i1):
+    rp = dict(op='single-index-roundtrip', n=n, index=int(i1))
+    def f():
+        F = G.pauli_index_to_F2(int(i1), n, with_sign=True)
+        s1 = G.pauli_index_to_str(int(i1), n)
+        i2 = int(G.pauli_F2_to_index(F, with_sign=True))
+        i3 = int(G.pauli_str_to_index(s1))
+        s2, sg = G.pauli_F2_to_str(F)
+        F2 = G.pauli_str_to_F2(s2, sg)
+        return i2, i3, s1, s2, np.array_equal(F, F2), sign_to_exp(sg)
+    r = guarded(f)
+    if isinstance(r, str):
+        ctx.fail('single-roundtrip', f'single-item conversion raised {r} for index {i1} (n={n})', rp)
+    elif r[0] != int(i1) or r[1] != int(i1) or r[2] != r[3] or not r[4] or r[5] != 0:
+        ctx.fail('single-roundtrip', f'index {i1} (n={n}, {r[2]}): F2->index gives {r[0]}, str->index gives {r[1]}, F2->str gives {r[3]}', rp)
+    else:
+        ctx.probe_ok(('srt', n, int(i1)))
 
 
 def batched_roundtrip(ctx, G, n, idx, strs):
@@ -288,6 +311,10 @@ def search(ctx, hints):
             n, i1 = int(t[2]), int(t[3])
             s1 = _nq.gate.pauli_index_to_str(i1, n)
             batched_roundtrip(ctx, _nq.gate, n, np.array([i1, i1]), np.array([s1, s1]))
+        if len(t) >= 4 and t[1] == 'toindex' and len(t[3]) == 2 * int(t[2]) + 2:
+            # the index of this operator, computed from its string, back through the single-item round trip
+            s0, _ = _nq.gate.pauli_F2_to_str(f2arr(t[3]))
+            single_roundtrip(ctx, _nq.gate, int(t[2]), sum('IXYZ'.index(c) * 4 ** (len(s0) - 1 - j) for j, c in enumerate(s0)))
         if len(t) >= 4 and t[1] in ('tostr', 'toindex') and len(t[3]) == 2 * int(t[2]) + 2:
             n = int(t[2]); f = f2arr(t[3])
             s2, sg = _nq.gate.pauli_F2_to_str(np.stack([f, f]))
